@@ -54,16 +54,17 @@ def cover_inputs(tier, rng):
 
 
 # ------------------------------------------------------------------------------------------------ stress families (deterministic)
-def threshold_packs(tier, sizes=(7, 8)):
+def threshold_packs(tier, sizes=(7, 8), binsizes=(10, 12), per_size=None):
     """bin-packing instances built from the values that sit ON the thresholds of pruning rules: binsize/2, /3, /4 and their neighbours,
     7-8 items (beyond what the exhaustive part of the domain reaches): exact halves that share a bin, exact thirds, exact fills."""
     out = []
-    for B in (10, 12):
-        pool = sorted({B // 2, B // 3, B // 4, B // 2 + 1, B // 2 - 1, B // 3 + 1, 2, 3} - {0})
+    for B in binsizes:
+        pool = sorted({B // 2, B // 3, B // 4, B // 2 + 1, B // 2 - 1, B // 3 + 1, B // 3 - 1, B // 4 + 1, B // 5, 2, 3} - {0}) if B > 12 else \
+            sorted({B // 2, B // 3, B // 4, B // 2 + 1, B // 2 - 1, B // 3 + 1, 2, 3} - {0})
         for k in sizes:
             combos = list(itertools.combinations_with_replacement(pool, k))
             random.Random(B * 100 + k).shuffle(combos)
-            for m in combos[: (2000 if tier == "quick" else 20000)]:
+            for m in combos[: (per_size or (2000 if tier == "quick" else 20000))]:
                 out.append({"values": sorted(m, reverse=True), "B": B})
     return out
 
